@@ -364,3 +364,90 @@ Proof.
   - left. apply NoDup_count_occ'; assumption.
   - right; exact G.
 Qed.
+
+(* ------------------------------------------------------------------ once the answer event has
+   been delivered to the service (after the open), the open is resolved for good *)
+Lemma final_app tr1 : forall s tr2, final s (tr1 ++ tr2) = final (final s tr1) tr2.
+Proof. induction tr1 as [|[dt e] tr1 IH]; intros s tr2; cbn [app final]; [reflexivity | apply IH]. Qed.
+Lemma run_app tr1 : forall s tr2,
+  concat (run s (tr1 ++ tr2)) = concat (run s tr1) ++ concat (run (final s tr1) tr2).
+Proof.
+  induction tr1 as [|[dt e] tr1 IH]; intros s tr2; cbn [app run final]; [reflexivity|].
+  destruct (step s dt e) as [s' os] eqn:ST. cbn [concat fst]. rewrite IH, app_assoc. reflexivity.
+Qed.
+
+Lemma pfind_none_notin id l : pfind id l = None -> ~ In id (map fst l).
+Proof.
+  induction l as [|[i k] t IH]; cbn [pfind map fst]; [intros _ []|].
+  destruct (i =? id) eqn:E; [discriminate|]. intros H [C|C]; [apply N.eqb_neq in E; contradiction | exact (IH H C)].
+Qed.
+Lemma notin_pfind_none id l : ~ In id (map fst l) -> pfind id l = None.
+Proof.
+  induction l as [|[i k] t IH]; cbn [pfind map fst]; [reflexivity|]. intros H.
+  destruct (i =? id) eqn:E; [apply N.eqb_eq in E; exfalso; apply H; left; exact E|].
+  apply IH. intros C. apply H. right; exact C.
+Qed.
+
+Lemma notin_pend_stays tr : forall s id,
+  pend_inv s -> id < s_next s -> ~ In id (pend_ids s) ->
+  ~ In id (pend_ids (final s tr)) /\ id < s_next (final s tr).
+Proof.
+  induction tr as [|[dt e] tr IH]; intros s id P L N; cbn [final]; [auto|].
+  destruct (step_ans s dt e P) as [P' [NX [_ [A2 _]]]]. apply IH; [exact P' | lia|].
+  intros C. destruct (A2 id C) as [H|H]; [contradiction | lia].
+Qed.
+
+Lemma answer_step_clears s dt a id :
+  (exists m, a = ESubOut id m) \/ a = ESubFail id ->
+  ~ In id (pend_ids (fst (step s dt a))).
+Proof.
+  intros H. unfold pend_ids. destruct (step_pend_ans s dt a) as [E _]. rewrite E.
+  set (s0 := with_now s (s_now s + dt)). destruct H as [[m ->]| ->]; cbn [handle_ev].
+  - destruct (pfind id (s_pend s0)) as [[p c]|] eqn:F; cbn [fst].
+    + rewrite (proj2 (sub_opened_view _ p c m)). st_simpl. apply pdel_ids_notin.
+    + apply pfind_none_notin. exact F.
+  - cbn [fst]. st_simpl. apply pdel_ids_notin.
+Qed.
+
+Lemma ocmd_issued tr : forall s c id,
+  pend_inv s -> In (OCmd c id) (concat (run s tr)) -> id < s_next (final s tr).
+Proof.
+  induction tr as [|[dt e] tr IH]; intros s c id P H; cbn [run final] in *; [destruct H|].
+  pose proof (step_accept s dt e c id P) as SA. pose proof (step_ans s dt e P) as [P' _].
+  destruct (step s dt e) as [s' os] eqn:ST. cbn [fst snd concat] in *.
+  apply in_app_or in H. destruct H as [H|H]; [|eapply IH; eauto].
+  destruct (SA H) as [p PF]. apply pfind_ids in PF.
+  assert (L : id < s_next s') by (destruct P' as [_ Q]; rewrite Forall_forall in Q; apply Q; exact PF).
+  clear -P' L. revert s' P' L. induction tr as [|[dt e] tr IH]; intros s' P' L; cbn [final]; [exact L|].
+  destruct (step_ans s' dt e P') as [P'' [NX _]]. apply IH; [exact P'' | lia].
+Qed.
+
+Lemma answer_event_resolves tr1 dt a tr2 ka T n0 c id :
+  In (OCmd c id) (concat (run (init ka T n0) tr1)) ->
+  (exists m, a = ESubOut id m) \/ a = ESubFail id ->
+  pfind id (s_pend (final (init ka T n0) (tr1 ++ (dt, a) :: tr2))) = None.
+Proof.
+  intros H A. rewrite final_app. cbn [final].
+  set (s1 := final (init ka T n0) tr1).
+  assert (P1 : pend_inv s1) by (apply pend_inv_final, pend_inv_init).
+  assert (L1 : id < s_next s1) by (eapply ocmd_issued; [apply pend_inv_init | exact H]).
+  destruct (step_ans s1 dt a P1) as [P2 [NX _]].
+  apply notin_pfind_none.
+  apply (notin_pend_stays tr2 (fst (step s1 dt a)) id P2); [lia|].
+  apply answer_step_clears. exact A.
+Qed.
+
+(* the open is answered exactly once, or its connection was reported closed — given only that
+   the answer event reaches the service after the open was made *)
+Lemma open_answered_delivered tr1 dt a tr2 ka T n0 c id :
+  In (OCmd c id) (concat (run (init ka T n0) tr1)) ->
+  (exists m, a = ESubOut id m) \/ a = ESubFail id ->
+  let tr := tr1 ++ (dt, a) :: tr2 in
+  (count_occ N.eq_dec (ans_ids (concat (run (init ka T n0) tr))) id <= 1)%nat /\
+  (count_occ N.eq_dec (ans_ids (concat (run (init ka T n0) tr))) id = 1%nat \/
+   exists dt' p, In (dt', EClosed p c) tr).
+Proof.
+  intros H A tr. apply open_answered.
+  - unfold tr. rewrite run_app. apply in_or_app. left. exact H.
+  - eapply answer_event_resolves; eassumption.
+Qed.
